@@ -800,6 +800,27 @@ func runScheduled(run *core.Run) {
 		}
 		cfg.Seed = uint64(t.Draw(1<<30))<<1 | 1
 	}
+	if fine {
+		// A context switch costs some 20 microseconds (the parked workers spin): bound the expected
+		// number of switches of one run to about a million, whatever the sources' size. (The
+		// estimate is low by a factor of up to six for long sources; a 16 KB source in all of 13
+		// pipelines, switched at every statement, once took four minutes alone and ran into the
+		// watchdog on a loaded machine.)
+		est := total * 6
+		switch cfg.Policy {
+		case sched.PolicyRoundRobin:
+			if min := est/1000000 + 1; cfg.Param < min {
+				cfg.Param = min
+			}
+		case sched.PolicySticky:
+			if max := 1000000 * 1000 / (est + 1); cfg.Param > max {
+				cfg.Param = max
+				if cfg.Param < 1 {
+					cfg.Param = 1
+				}
+			}
+		}
+	}
 	run.Describe("schedule: granularity=%s policy=%s param=%d first=%d change-points=%v (estimated decision points: %d)", map[bool]string{true: "statement", false: "resolver-call"}[fine], sched.PolicyNames[cfg.Policy], cfg.Param, cfg.First, cfg.ChangePoints, total)
 
 	// ---- the concurrent run: shared instances, real goroutines, invisible serialisation
